@@ -4,7 +4,7 @@ import gens
 PLAN_ENTRY = {'stages': [
     {'name': 'raycast',
      'mc': [{'module': 'MC_C06', 'cfg': {'quick': 'MC_C06_quick.cfg', 'thorough': 'MC_C06_thorough.cfg'}, 'workers': 4}],
-     'gens': ['gen_c06_random', 'gen_c06_vertex_lines'],
+     'gens': ['gen_c06_random', 'gen_c06_vertex_lines', 'gen_c06_corner_clips'],
      'trace': 'Trace_RayCast'}],
     'assumptions': [
         'TLC evaluates the per-edge line/segment solution of RayCast.tla correctly (exact integer cross products)',
@@ -68,4 +68,15 @@ def gen_c06_vertex_lines(rnd, tier):
                 for d in ds:
                     out.append({'m': 'ray', 'op': 'cast', 'pts': pts, 'sc': rnd.choice((0, -3, 2)),
                                 'o': [v[0] + k * d[0], v[1] + k * d[1], 0], 'dirs': [d]})
+    return out
+
+
+def gen_c06_corner_clips(rnd, tier):
+    """lines that clip a corner of a curve whose own tolerance (1.5 units) is larger than the chord they cut (1.41): still two crossings"""
+    out = []
+    sq = [[0, 0, 0], [8, 0, 0], [8, 8, 0], [0, 8, 0], [0, 0, 0]]
+    for (o, d) in (([1, 0, 0], [-1, 1, 0]), ([0, 1, 0], [1, -1, 0]), ([7, 0, 0], [1, 1, 0]), ([9, 7, 0], [-1, 1, 0]), ([1, 8, 0], [-1, -1, 0]),
+                   ([-2, 3, 0], [1, -1, 0]), ([3, 3, 0], [1, 0, 0])):
+        for sc in (0, -3, 5):
+            out.append({'m': 'ray', 'op': 'cast', 'pts': sq, 'sc': sc, 'ctol16': 24, 'o': o, 'dirs': [d, [-d[0], -d[1], 0]]})
     return out
